@@ -122,7 +122,15 @@ def run_case(case):
                     reorder_glyphs(font, first)
                     c["two_step_reorders"] = c.get("two_step_reorders", 0) + 1
                     ctx["via"] = "a first re-ordering of the same font object"
-                reorder_glyphs(font, order)
+                if pname == "random" and case["i"] % 3 == 1:
+                    # the caller permutes, in place, the very list font.getGlyphOrder() handed out
+                    own = font.getGlyphOrder()
+                    own[:] = order
+                    c["in_place_orders"] = c.get("in_place_orders", 0) + 1
+                    ctx["via"] = "the font's own glyph order list, permuted in place"
+                    reorder_glyphs(font, own)
+                else:
+                    reorder_glyphs(font, order)
                 b = io.BytesIO()
                 font.save(b)
                 after_font = TTFont(io.BytesIO(b.getvalue()), lazy=False)
